@@ -79,6 +79,7 @@ def main():
               "Known findings: /verif/known_findings.json. See DESIGN.md.",
         not_applicable=na,
     )
+    manifest["engines"] = [e for e in manifest["engines"] if e["serves_properties"]]
     (VERIF / "MANIFEST.json").write_text(json.dumps(manifest, indent=1) + "\n")
     print("claimed:", [c["property_id"] for c in checks])
     print("not claimed:", [n["property_id"] for n in na])
